@@ -92,6 +92,20 @@ func c20call(c *mon.Ctx, n, m int, useDefault bool, delay int, salt uint64) {
 	if useDefault {
 		parallel.Execute(n, work)
 		m = runtime.NumCPU()
+	} else if salt%3 == 0 {
+		// the limit is spread from a slice the caller keeps and re-uses: it must come back unchanged, also after a call
+		// with fewer iterations than workers (n = 0 first, then the real call with the same slice)
+		lim := make([]int, 1, 4)
+		lim[0] = m
+		parallel.Execute(0, func(int, int) {}, lim...)
+		if lim[0] != m {
+			c.Fail("caller-limit-slice-modified", fmt.Sprintf("Execute(0, work, limits...) changed the caller's limits[0] from %d to %d", m, lim[0]), nil)
+			lim[0] = m
+		}
+		parallel.Execute(n, work, lim...)
+		if lim[0] != m {
+			c.Fail("caller-limit-slice-modified", fmt.Sprintf("Execute(n=%d, work, limits...) changed the caller's limits[0] from %d to %d", n, m, lim[0]), nil)
+		}
 	} else {
 		parallel.Execute(n, work, m)
 	}
